@@ -111,6 +111,9 @@ structure S where
   aborts : List Nat := []
   deriving Repr, DecidableEq
 
+/-- `RSTransport.is_closing()` -/
+def S.isClosing (s : S) : Bool := s.closedEvent || s.closing
+
 inductive Event where
   /-- the peer's request `i` arrives; its handler is of kind `k` (`arg` = react / force_after) -/
   | request (i : Nat) (k : HKind)
